@@ -27,6 +27,7 @@ type PartialFamily struct {
 	Collect  string // when set, violations of this property are collected instead of Prop's
 	Base     uint64 // > 0: started with NewMapPollardFromRoots on an accumulator of Base opaque leaves (TotalRows 63)
 	UndoAs   string // when set, states reached through an Undo report their clauses under this property (C06)
+	Alloc    bool   // Verify(remember) is given its targets in the coordinates of the allocated height (documented as accepted)
 	FullFR   bool   // the "fromroots" transition creates a FULL map forest (NewMapPollardFromRoots(..., true)); the
 	// block transitions then remember every addition and the "stores nothing beyond" clause is dropped
 }
@@ -98,6 +99,10 @@ func (f *PartialFamily) Ops(n *Node) []Op {
 		}
 	}
 	for _, set := range limitSets(subsets(live, false), f.SetLimit) {
+		if f.Alloc {
+			ops = append(ops, Op{Kind: "verify", Set: set, Enc: "alloc"})
+			continue
+		}
 		ops = append(ops, Op{Kind: "verify", Set: set})
 		if f.Junk {
 			ops = append(ops, Op{Kind: "verify", Set: set, Enc: "junk"})
@@ -185,6 +190,13 @@ func (f *PartialFamily) run(x *Exec, hist []Op) (*u.MapPollard, *partModel, bool
 				proof.Proof = append(append([]Hash(nil), proof.Proof...), ref.FreshHash(9))
 			}
 			hs := ref.Hashes(op.Set)
+			if op.Enc == "alloc" && m.TotalRows > L.R && m.TotalRows <= 63 {
+				ts := make([]uint64, len(proof.Targets))
+				for i, t := range proof.Targets {
+					ts[i], _ = ref.Translate(t, L.R, m.TotalRows)
+				}
+				proof.Targets = ts
+			}
 			var err error
 			if op.Kind == "verify" {
 				err = x.VerifyAcc(name, m, hs, proof, true)
@@ -538,7 +550,7 @@ func partialMedium(c *Ctx, collect ...string) {
 		}
 		for _, S := range alignedUnions(N, parts) {
 			for _, R := range [][]int{all, evens} {
-				for _, k := range []int{0, 1, 2} {
+				for _, k := range []int{0, 1, 2, nextPow2(N) - N + 1} {
 					kr := make([]int, k)
 					for i := range kr {
 						kr[i] = i
@@ -660,6 +672,13 @@ func init() {
 		c.Cov.Bound["A"] = fmt.Sprintf("Nmax=%d undo budget 1, fromroots budget 1, junk-proof verify", nA)
 		for _, tr := range trs {
 			BFS(c, &PartialFamily{Nmax: nA, TR: tr, UndoBud: 1, FRBud: 1, Junk: true, Prop: "C09"}, 0)
+		}
+		// the same with Verify(remember) targets given in allocated-height coordinates
+		c.Cov.Bound["A_alloc"] = fmt.Sprintf("Nmax=%d, TotalRows 3 and 63, Verify(remember) with allocated-row targets, undo budget 1", nA)
+		for _, tr := range []uint8{3, 63} {
+			if !c.Expired() {
+				BFS(c, &PartialFamily{Nmax: nA, TR: tr, UndoBud: 1, NoIngest: true, Alloc: true, Prop: "C09"}, 0)
+			}
 		}
 		nO := pick(c, 3, 4)
 		bases := offsetBases(c.Thorough())
